@@ -617,6 +617,31 @@ def run(ctx: Context) -> None:
                 continue
             ctx.add("R11", f"{m.qualname}::errors-are-not-swallowed", not hs, m.loc(hs[0]) if hs else m.loc(), "" if not hs else f"`except {ast.unparse(hs[0].type) if hs[0].type else ''}` ends without re-raising: a failed {c.name} operation is reported as an ordinary result (empty / default / done), which the sibling backend - where the failure cannot occur - never returns for that state")
     ctx.floor("R11", "backend methods", n11, 150)
+    # R12: SQLite statements are atomic per row; the in-memory sibling must not replace a stored element by a value computed
+    # from a copy of it without a lock (a concurrent writer's update in between is lost: the SQLite backend keeps both)
+    from ..flow import read_copy_write_sites
+
+    ctx.rule("R12", "in-memory components do not read-copy-write an element of a shared container without a lock (`tmp = copy(self.X[k]); ...; self.X[k] = tmp`), except at the frozen single-writer sites")
+    SINGLE_WRITER = {
+        "pynenc.orchestrator.mem_orchestrator.MemOrchestrator.increment_invocation_retries::invocation_retries": "only the runner that owns the invocation counts its retries",
+        "pynenc.trigger.mem_trigger.MemTrigger.clean_task_trigger_definitions::_condition_triggers": "runs while a task's triggers are (re)registered at start-up, before the trigger loop of this process polls",
+    }
+    n12 = 0
+    for c in ctx.repo.classes.values():
+        if not (c.name.startswith("Mem") and c.module.name.startswith("pynenc.")):
+            continue
+        for m in c.methods.values():
+            n12 += 1
+            sites_ = read_copy_write_sites(m.node)
+            if not sites_:
+                continue
+            for node, attr, src in sites_:
+                k = f"{m.qualname}::{attr}"
+                if k in SINGLE_WRITER:
+                    ctx.ok("R12", f"{k}::no-unlocked-read-copy-write", m.loc(node), "single writer: " + SINGLE_WRITER[k])
+                else:
+                    ctx.fail("R12", f"{k}::no-unlocked-read-copy-write", m.loc(node), f"`{ast.unparse(node)[:70]}` stores a value computed from a copy of self.{attr}[...] without a lock: two threads doing this for the same key keep only one of the two updates, the SQLite sibling (one statement per row) keeps both")
+    ctx.floor("R12", "in-memory component methods", n12, 80)
     ctx.exhaustive = True
     ctx.not_decided += [
         "equivalence over operation sequences and agreement with an executable reference model (behavioural)",
